@@ -106,9 +106,14 @@ def check_case(case, ctx):
             with poisoned_empty(POISONS[0]):
                 m = qcall(Mandoline, "src", fields=list(req), limit_level=limit, serial=hserial, verbose=0)
                 qcall(m.slice, normal=cn, pos=p2, fformat="return")
-                qcall(m.slice, normal=cn, pos=p, fformat="return")
+                first = qcall(m.slice, normal=cn, pos=p, fformat="return")
+                # the caller owns what it was given: editing the returned arrays in place must not change later results
+                for key, arr in first.items():
+                    if isinstance(arr, np.ndarray) and arr.dtype.kind == "f" and arr.flags.writeable:
+                        arr *= 100.0
+                        arr -= 7.0
                 again = qcall(m.slice, normal=cn, pos=p, fformat="return")
-            for name in out_names + (["grid_level"] if do_grid else []):
+            for name in out_names + (["grid_level"] if do_grid else []) + ["x", "y"]:
                 a, b = np.asarray(out.get(name)), np.asarray(again.get(name))
                 if a.shape != b.shape or not refread.same_bits(a.astype("<f8"), b.astype("<f8")):
                     v.append(f"{name}: the third slice of one Mandoline object (after p2={p2!r} and p itself, serial={hserial}) "
